@@ -12,6 +12,15 @@ Section Instance.
   (* what the tokenizer does to its private mode at the start of ReadNextToken, given LastTokenType
      (identity for the plain tokenizers; "LastTokenType == Unknown => text mode" for the mustache tokenizer) *)
   Variable enter : M -> ttype -> M.
+  (* what the tokenizer does to LastTokenType after the loop returned (identity for the plain tokenizers; the
+     mustache tokenizer keeps it across text tokens and records Symbol after an Unknown token):
+     relast returned-token old-value value-set-by-the-loop *)
+  Variable relast : option token -> ttype -> ttype -> ttype.
+
+  Definition rn (m : M) (c : cur) (l : ttype) : res (option token * cur * M * ttype) :=
+    match read_next M plc produce decode o (enter m l) c l with
+    | Ok (t, c', m', l') => Ok (t, c', m', relast t l l')
+    | Panic => Panic | Fuel => Fuel end.
 
   Record inst := { cached : option token; last : ttype; mode : M; cursor : cur }.
 
@@ -20,7 +29,7 @@ Section Instance.
 
   (* ReadNextToken on the instance: returns the token and the updated fields *)
   Definition read_tok (i : inst) : res (option token * inst) :=
-    match read_next M plc produce decode o (enter (mode i) (last i)) (cursor i) (last i) with
+    match rn (mode i) (cursor i) (last i) with
     | Ok (t, c', m', last') => Ok (t, {| cached := cached i; last := last'; mode := m'; cursor := c' |})
     | Panic => Panic | Fuel => Fuel end.
 
@@ -44,12 +53,12 @@ Section Instance.
   (* the token stream of an instance state, as a relation (no fuel) *)
   Inductive stream : M -> cur -> ttype -> list token -> Prop :=
   | stream_end m c l c' m' l' :
-      read_next M plc produce decode o (enter m l) c l = Ok (None, c', m', l') ->
+      rn m c l = Ok (None, c', m', l') ->
       (* once exhausted, it stays exhausted *)
-      read_next M plc produce decode o (enter m' l') c' l' = Ok (None, c', m', l') ->
+      rn m' c' l' = Ok (None, c', m', l') ->
       stream m c l []
   | stream_tok m c l t c' m' l' ts :
-      read_next M plc produce decode o (enter m l) c l = Ok (Some t, c', m', l') ->
+      rn m c l = Ok (Some t, c', m', l') ->
       stream m' c' l' ts -> stream m c l (t :: ts).
 
   (* what an observer sees: the results of the NextToken calls in a sequence of HasNextToken / NextToken calls *)
@@ -94,9 +103,26 @@ Section Instance.
   (* the stream of a freshly set reader depends on the previous mode only through `enter _ Unknown` *)
   Lemma stream_fresh_mode m m' c ts : enter m Unknown = enter m' Unknown -> stream m c Unknown ts -> stream m' c Unknown ts.
   Proof.
-    intros He Hs. inversion Hs; subst.
-    - eapply stream_end; [rewrite <- He; eassumption|eassumption].
-    - eapply stream_tok; [rewrite <- He; eassumption|eassumption].
+    intros He Hs.
+    assert (Hrn: forall l, l = Unknown -> rn m' c l = rn m c l) by (intros l ->; unfold rn; rewrite He; reflexivity).
+    inversion Hs; subst.
+    - eapply stream_end; [rewrite Hrn by reflexivity; eassumption|eassumption].
+    - eapply stream_tok; [rewrite Hrn by reflexivity; eassumption|eassumption].
+  Qed.
+
+  (* C05, first half: after SetReader nothing of the previous history is left. Whatever state i the instance was in
+     (any history, aborted iteration, cached look-ahead, stale mode) and whatever state i' a freshly constructed
+     instance is in, every sequence of HasNextToken / NextToken calls observes the same results - including a
+     failure, if there were one. *)
+  Theorem reuse_equals_fresh i i' s calls :
+    (forall m m', enter m Unknown = enter m' Unknown) ->
+    observe calls (set_reader i s) = observe calls (set_reader i' s).
+  Proof.
+    intros He.
+    assert (Hrt: read_tok (set_reader i s) = read_tok (set_reader i' s)).
+    { unfold read_tok, set_reader, rn. cbn [mode cursor last cached]. rewrite (He (mode i) (mode i')). reflexivity. }
+    destruct calls as [|c calls]; [reflexivity|].
+    destruct c; cbn [observe]; unfold has_next, next; cbn [cached set_reader]; rewrite Hrt; reflexivity.
   Qed.
 
   (* C05: history independence. The previous instance state i is arbitrary (any history, any aborted iteration, any
